@@ -578,11 +578,24 @@ impl LanguageServer for Backend {
                     .await
                     .map_err(|err| error!("{err}"))
                     .err();
-                self.refresh_document(&file_url)
-                    .await
-                    .map_err(|err| error!("{err}"))
-                    .err();
-                self.publish_diagnostics(&file_url).await;
+
+                // The user dictionary applies to every open document, not only the one the
+                // command was issued from.
+                let mut urls: Vec<Url> = {
+                    let doc_lock = self.doc_state.lock().await;
+                    doc_lock.keys().cloned().collect()
+                };
+                if !urls.contains(&file_url) {
+                    urls.push(file_url);
+                }
+
+                for url in urls {
+                    self.refresh_document(&url)
+                        .await
+                        .map_err(|err| error!("{err}"))
+                        .err();
+                    self.publish_diagnostics(&url).await;
+                }
             }
             "HarperAddToFileDict" => {
                 let word = &first.chars().collect::<Vec<_>>();
